@@ -195,3 +195,11 @@ mod tests {
         assert_eq!(s.read(), '\n');
     }
 }
+
+#[cfg(feature = "verif")]
+impl ParseError {
+    /// Message and byte offset, for the verification harness.
+    pub fn verif_parts(&self) -> (&str, usize) {
+        (&self.msg, self.ofs)
+    }
+}
